@@ -912,4 +912,34 @@ impl<E: Eviction, I: Indexer<Eviction = E>> OutdatedCtx<E, I> {
 //@end
 }
 
+// ---- RawCache::insert_with_properties_inner: placement decision before the record is built (C12): an entry rejected by
+// the in-memory filter or advised on-disk becomes a phantom (not retained in memory, handed to the disk tier on drop)
+pub trait PropsW: Sized {
+    spec fn w_phantom(&self) -> bool;
+    spec fn w_location(&self) -> Option<Location>;
+    fn with_phantom(self, phantom: bool) -> (r: Self) ensures r.w_phantom() == phantom, r.w_location() == self.w_location();
+    fn location(&self) -> (r: Option<Location>) ensures r == self.w_location();
+}
+/// `Arc<dyn Weighter>` / `Arc<dyn Filter>`: user callbacks, results unconstrained but functional
+pub struct WeighterT { pub w: u8 }
+pub struct FilterT { pub f: u8 }
+pub uninterp spec fn spec_filter(k: u64, v: u64) -> bool;
+impl WeighterT { #[verifier::external_body] pub fn call(&self, k: &u64, v: &u64) -> usize { unimplemented!() } }
+impl FilterT { #[verifier::external_body] pub fn call(&self, k: &u64, v: &u64) -> (r: bool) ensures r == spec_filter(*k, *v) { unimplemented!() } }
+pub struct HashBuilderT { pub h: u8 }
+impl HashBuilderT { #[verifier::external_body] pub fn hash_one(&self, k: &u64) -> u64 { unimplemented!() } }
+pub struct PlacementInnerT { pub hash_builder: HashBuilderT, pub weighter: WeighterT, pub filter: FilterT }
+pub struct PlacementT { pub inner: PlacementInnerT }
+impl PlacementT {
+//@region foyer-memory/src/raw.rs :: impl~^impl<E, S, I> RawCache<E, S, I> where/fn insert_with_properties_inner name=placement start=/let hash = self\.inner\.hash_builder\.hash_one\(&key\);/ end=/&& location == Location::OnDisk\s*\n\s*\{\s*\n\s*properties = properties\.with_phantom\(true\);/ rules=let-chain sub=@\(self\.inner\.weighter\)\(@self.inner.weighter.call(@ sub=@\(self\.inner\.filter\)\(@self.inner.filter.call(@
+//@head
+    fn placement<P: PropsW>(&self, key: u64, value: u64, mut properties: P) -> (r: P)
+        ensures
+            r.w_location() == properties.w_location(),
+            r.w_phantom() == (if !spec_filter(key, value) || properties.w_location() == Some(Location::OnDisk) { true } else { properties.w_phantom() }), // @label phantom_iff_filtered_out_or_advised_on_disk
+//@tail
+        properties
+//@end
+}
+
 } // verus!
